@@ -34,11 +34,14 @@ pub fn run(out_path: &str, report_path: &str, opts: &[String]) {
         let mut deps: Vec<Vec<u64>> = (0..nk).map(|_| if rng.gen_bool(0.6) { vec![rng.gen_range(1..=nk as u64)] } else { vec![] }).collect();
         let mut cache_on = rng.gen_bool(0.6);
         let shared = rng.gen_bool(0.5);
+        let mut single = false;
         if cache_on && cyclic(&deps) {
-            // with the cache on, threads on a dependency cycle can wait for each other (recorded finding, decided by Engine C)
-            if rng.gen_bool(0.5) { cache_on = false; } else { for d in deps.iter_mut() { if let Some(p) = d.first().cloned() { if p as usize > 0 { let me = p; let _ = me; } } } deps = (0..nk).map(|i| if i + 1 < nk && rng.gen_bool(0.7) { vec![i as u64 + 2] } else { vec![] }).collect(); }
+            // with the cache on, threads on a dependency cycle can wait for each other (recorded finding, decided by
+            // Engine C): such graphs are driven by one thread here (cached errors, recomputation), or made acyclic
+            if rng.gen_bool(0.4) { single = true; }
+            else { deps = (0..nk).map(|i| if i + 1 < nk && rng.gen_bool(0.7) { vec![i as u64 + 2] } else { vec![] }).collect(); }
         }
-        let threads = rng.gen_range(2..=nt);
+        let threads = if single { 1 } else { rng.gen_range(2..=nt) };
         let loads: Vec<Vec<u64>> = (0..nt).map(|t| if t < threads { (0..rng.gen_range(1..=nl)).map(|_| rng.gen_range(1..=nk as u64)).collect() } else { vec![] }).collect();
         if cache_on { cached_runs += 1; }
         if cyclic(&deps) { cyclic_runs += 1; }
